@@ -89,7 +89,16 @@ def rebuild_deep(root, target_hash, m):
 
 
 def nested_tree(rng, n, budget=2):
-    """ordinary level-0 tree of about n cells that embeds Merkle proof / Merkle update cells (nested up to `budget` deep) over ordinary subtrees"""
+    """ordinary level-0 tree of about n cells that embeds Merkle proof / Merkle update cells (nested up to `budget` deep) over ordinary subtrees; the tree under an
+    embedded Merkle cell may itself already be partly pruned (level-1 pruned branches, as the old/new states of a real block's state update are)"""
+    def partly_pruned(t):
+        # replace some proper subtrees of an ordinary tree by level-1 pruned branches (valid only directly under a Merkle cell: the tree's mask becomes 0b01)
+        cands = [c for c in gen.all_cells(t) if c.hash != t.hash and c.type == rc.ORD and c.mask == 0]
+        if not cands or rng.random() < 0.4:
+            return t
+        chosen = {c.hash for c in rng.sample(cands, rng.randint(1, min(2, len(cands))))}
+        return prune(t, chosen)
+
     def sub(n, budget):
         if n <= 1:
             return rc.RC(gen.rand_bits(rng, rng.choice([0, 5, 40])))
@@ -102,9 +111,10 @@ def nested_tree(rng, n, budget=2):
             if budget > 0 and rng.random() < 0.45:
                 t = sub(share, budget - 1)
                 if rng.random() < 0.5:
-                    t = rc.make_merkle_proof(t)
+                    t = rc.make_merkle_proof(partly_pruned(t) if t.mask == 0 else t)
                 else:
-                    t = rc.make_merkle_update(sub(max(1, share // 2), budget - 1), t)
+                    o_ = sub(max(1, share // 2), budget - 1)
+                    t = rc.make_merkle_update(partly_pruned(o_) if o_.mask == 0 else o_, partly_pruned(t) if t.mask == 0 else t)
             kids.append(t)
             if left == 0:
                 break
